@@ -150,7 +150,7 @@ pub fn run(tier: Tier, seed: u64, only: Option<usize>) -> i32 {
         "floating point fields are compared with 2e-6 ms absolute (1ns rounding of stored durations) or 1e-9 relative tolerance".into(),
     ];
     rep.required_clauses = vec!["state_equals_reaggregation", "conservation_laws"];
-    let n = tier.pick(3000, 100_000);
+    let n = tier.pick(50_000, 200_000);
     match only {
         Some(i) => {
             let o = history(seed, i, tier);
